@@ -73,7 +73,9 @@ def gen_float_doc(rng, adversarial=False):
                 w = F(rng.randint(1, max(1, int(width * 4 * 0.6))), 4)
             else:
                 w = F(rng.randint(1, int(width)))
-            h = q(rng, 1, 40) if rng.random() < 0.9 else F(1, 4)
+            r = rng.random()
+            # 4%: an empty border box (the early return of avoid_collisions; finding zero-height-float-ignores-other-floats)
+            h = q(rng, 1, 40) if r < 0.88 else F(1, 4) if r < 0.96 else F(0)
             item = {'kind': 'float', 'side': rng.choice(SIDES), 'w': w, 'h': h, 'clear': clear(),
                     'mt': margin(), 'mr': margin(), 'mb': margin(), 'ml': margin()}
             if rng.random() < 0.4:
@@ -86,9 +88,9 @@ def gen_float_doc(rng, adversarial=False):
             # "fits on the line", "waits for the end of the line" and "waits behind a waiting float" all occur
             inline = []
             align = rng.choice(['start', 'start', 'left', 'right', 'center', 'end'])
-            # floats inside lines only where the finished line is not shifted horizontally (ltr, start-aligned):
-            # known finding rtl-inline-float-displaced (the shift moves the floats of the line too)
-            with_floats = not doc['rtl'] and align in ('start', 'left')
+            # floats inside lines in every direction and alignment: they stay where float_layout puts them
+            # (the line's own shift no longer moves them: former finding rtl-inline-float-displaced)
+            with_floats = True
             for n in words:
                 line_floats = []
                 if with_floats and rng.random() < 0.45:
@@ -263,7 +265,7 @@ def float_doc_wire(doc):
             for n, fl in zip(it['words'], it['inline']):
                 size = [0, n[1], n[2]] if isinstance(n, list) else [n * doc['fs'], n * doc['fs'], doc['fs']]
                 lines.append(size + [[[0, 0, f['mt'], f['mb'], f['ml'], f['mr'], f['w'], f['h'], f['side'],
-                                       f['clear'], 'bfc'] for f in fl]])
+                                       f['clear'], 'bfc'] for f in fl], isinstance(n, list)])
             items.append(['para', it['clear'], doc['fs'], it['align'], lines, it['mt'], it['mb']])
         elif it['kind'] == 'bfc':
             items.append(['bfc', it['clear'], it['w'], it['h'], it['ml'], it['mr'], it['mt'], it['mb']])
@@ -346,7 +348,7 @@ def sec_float_docs(run):
         'paragraphs of one-word lines, BFC roots (overflow:hidden, auto or fixed width) and plain blocks in a '
         'container of random width, ltr and rtl; compared: margin box of every float, position and width of every '
         'line box, border box of every BFC root, top of every block; non-trivial = at least two floats')
-    for _ in range(run.n(350, 4000)):
+    for _ in range(run.n(500, 4000)):
         doc = gen_float_doc(rng, adversarial=rng.random() < 0.2)
         out = guarded(lambda: observe_float_doc(doc))
         n_floats = sum(1 for it in doc['items'] if it['kind'] == 'float')
@@ -831,6 +833,184 @@ def fixed_doc_violation(doc, text):
 
 
 # ---------------------------------------------------------------------------------------------
+# fixed boxes (also nested in fixed boxes) on pages whose page areas differ
+
+PAGE_RULES = {
+    'same': '@page{size:240px 320px;margin:16px 24px 32px 40px}',
+    'mirrored': ('@page{size:240px 320px;margin:16px}@page :right{margin-left:48px;margin-top:24px}'
+                 '@page :left{margin-right:56px;margin-bottom:32px}'),
+    'first': '@page{size:320px 240px;margin:24px 16px}@page :first{size:240px 320px;margin:8px 32px 16px}',
+    'named': '@page{size:240px 320px;margin:16px}@page wide{size:400px 240px;margin:8px 40px 24px 32px}',
+}
+
+
+def gen_fixed_style(rng):
+    """One offset per axis at least (no static position), px or % of the page area, px size and margins."""
+    def off():
+        r = rng.random()
+        return ['px', q(rng, 0, 60)] if r < 0.6 else ['pct', rng.choice([F(0), F(25, 2), F(25), F(50)])]
+
+    def axis():
+        r = rng.random()
+        return (off(), 'auto') if r < 0.45 else ('auto', off()) if r < 0.9 else (off(), off())
+    left, right = axis()
+    top, bottom = axis()
+
+    def margin():
+        return F(0) if rng.random() < 0.6 else q(rng, 0, 6)
+    return {'left': left, 'right': right, 'top': top, 'bottom': bottom, 'w': q(rng, 4, 40), 'h': q(rng, 4, 30),
+            'ml': margin(), 'mr': margin(), 'mt': margin(), 'mb': margin()}
+
+
+def gen_fixed_tree(rng, ids, depth):
+    node = {'id': next(ids), 'style': gen_fixed_style(rng),
+            'chain': [rng.choice(['static', 'relative', 'absolute']) for _c in range(rng.choice([0, 0, 1, 2]))],
+            'kids': []}
+    if depth and rng.random() < 0.6:
+        node['kids'] = [gen_fixed_tree(rng, ids, depth - 1) for _k in range(rng.choice([1, 1, 2]))]
+        # the in-flow wrappers of the nested boxes (10px each) stay inside the box: content that crosses the page
+        # bottom is fragmented on the box's own page only (known finding fixed-box-fragmented-on-own-page;
+        # fragmentation of out-of-flow boxes is pagination, not placement)
+        in_flow = sum(1 for k in node['kids'] if k['chain'] and k['chain'][0] != 'absolute')
+        node['style']['h'] = max(node['style']['h'], F(10 * in_flow))
+    return node
+
+
+def gen_fixed_area_doc(rng):
+    """2..4 pages whose page areas differ (mirrored margins, another first page, named pages); on each, 0..2 fixed
+    boxes under static / relative / absolute ancestors, each holding 0..2 nested fixed boxes (depth <= 2)."""
+    import itertools
+    ids = itertools.count(1)
+    pages = []
+    for _ in range(rng.randint(2, 4)):
+        pages.append([gen_fixed_tree(rng, ids, 2) for _b in range(rng.choice([0, 1, 1, 2]))])
+    if not any(pages):
+        pages[rng.randrange(len(pages))].append(gen_fixed_tree(rng, ids, 2))
+    return {'rules': rng.choice(['same', 'mirrored', 'mirrored', 'first', 'first', 'named', 'named']), 'pages': pages}
+
+
+def fixed_tree_html(node, top=True):
+    st = node['style']
+    css = (f'position:fixed;left:{css_dim(st["left"])};right:{css_dim(st["right"])};top:{css_dim(st["top"])};'
+           f'bottom:{css_dim(st["bottom"])};width:{px(st["w"])};height:{px(st["h"])};'
+           f'margin:{px(st["mt"])} {px(st["mr"])} {px(st["mb"])} {px(st["ml"])}')
+    opening = ''.join(
+        f'<div style="position:{c};width:50px;height:10px;{"left:3px;top:2px" if c != "static" else ""}">'
+        for c in node['chain'])
+    inner = ''.join(fixed_tree_html(k, False) for k in node['kids'])
+    return f'{opening}<div id="f{node["id"]}" style="{css}">{inner}</div>' + '</div>' * len(node['chain'])
+
+
+def fixed_area_doc_html(doc):
+    out = [f'<style>{PAGE_RULES[doc["rules"]]}html,body{{margin:0;padding:0}}</style>']
+    for n, page in enumerate(doc['pages']):
+        named = 'page:wide;' if doc['rules'] == 'named' and n % 2 else ''
+        out.append(f'<div style="{"break-before:page;" if n else ""}{named}height:20px">')
+        out.extend(fixed_tree_html(t) for t in page)
+        out.append('</div>')
+    return ''.join(out)
+
+
+def fixed_tree_wire(node, top=True):
+    st = node['style']
+    return [node['id'], [dim_wire(st[k]) for k in ('left', 'right', 'top', 'bottom')] +
+            [st[k] for k in ('w', 'h', 'ml', 'mr', 'mt', 'mb')],
+            late_rule(node['chain']) if top else False, [fixed_tree_wire(k, False) for k in node['kids']]]
+
+
+def observe_fixed_area_doc(doc):
+    """-> (per page text `((id x y) …)`, page areas [x, y, w, h])"""
+    document = docs.render(fixed_area_doc_html(doc))
+    pages, areas = [], []
+    for page in document.pages:
+        box = page._page_box
+        areas.append([fr(box.content_box_x()), fr(box.content_box_y()), fr(box.width), fr(box.height)])
+        found = []
+        for b, _parent in walk(box):
+            element = getattr(b, 'element', None)
+            key = element.get('id') if element is not None else None
+            if key and key.startswith('f') and type(b).__name__ == 'BlockBox':
+                found.append(f'({key[1:]} {sx.atom(fr(b.position_x))} {sx.atom(fr(b.position_y))})')
+        pages.append('(' + ' '.join(found) + ')')
+    return ' '.join(pages), areas
+
+
+def sec_fixed_area_docs(run):
+    rng = run.rng
+    sec = run.section(
+        'fixed-areas', 'rendered documents of 2..4 pages whose page areas differ (mirrored :left / :right margins, a '
+        'different :first page, named pages) with fixed boxes (offsets px or % of the page area, from either side) '
+        'under static / relative / absolute ancestors, holding nested fixed boxes (depth <= 2); compared: on every '
+        'page, every fixed box drawn on it (nested ones included) and its position, against the model of make_page / '
+        'layout_fixed_boxes run on the observed page areas; non-trivial = two pages with different areas and a '
+        'nested or repeated fixed box')
+    for _ in range(run.n(150, 1000)):
+        doc = gen_fixed_area_doc(rng)
+        out = guarded(lambda: observe_fixed_area_doc(doc))
+        if isinstance(out, str):
+            sec.add(sx.line('fixedtrees', [], []), out, meta={'kind': 'fixed-area-doc', 'doc': doc, 'signature': None},
+                    tags=['render-error'])
+            continue
+        text, areas = out
+        wire_pages = [[fixed_tree_wire(t) for t in page] for page in doc['pages']]
+        differing = len({tuple(a) for a in areas}) > 1
+        nested = any(t['kids'] for page in doc['pages'] for t in page)
+        sec.add(sx.line('fixedtrees', areas, wire_pages), text,
+                meta={'kind': 'fixed-area-doc', 'doc': doc, 'areas': areas, 'signature': None},
+                nontrivial=differing, tags=['rules-' + doc['rules'], 'areas-differ' if differing else 'areas-same',
+                                            'nested' if nested else 'flat', f'pages{len(areas)}'])
+
+
+def fixed_area_violation(doc, text, areas):
+    """A fixed box is laid out identically on every page: on every page it is drawn on, its offsets refer to the
+    page area of *that* page (`left` / `top` from the area's top-left corner, `right` / `bottom` from its
+    bottom-right corner) — nested fixed boxes included.  A box collected late (known finding
+    fixed-in-absolute-not-repeated) is only expected on its own page."""
+    if text.startswith('err:'):
+        return f'rendering raised {text}'
+    observed = sx.loads_line(text)
+    if len(observed) != len(doc['pages']) or len(areas) != len(observed):
+        return f'{len(observed)} pages rendered for {len(doc["pages"])} pages of content'
+
+    def check(node, m, where):
+        st = node['style']
+        ax, ay, aw, ah = areas[m]
+        here = [e for e in observed[m] if e[0] == str(node['id'])]
+        if len(here) != 1:
+            return f'fixed box f{node["id"]} ({where}) appears {len(here)} times on page {m + 1}'
+        x, y = F(here[0][1]), F(here[0][2])
+        mw, mh = st['w'] + st['ml'] + st['mr'], st['h'] + st['mt'] + st['mb']
+        left, right = resolve(st['left'], aw), resolve(st['right'], aw)
+        top, bottom = resolve(st['top'], ah), resolve(st['bottom'], ah)
+        if left is not None and x != ax + left:
+            return (f'fixed box f{node["id"]} ({where}) on page {m + 1}: margin box starts at x={x}, but the page '
+                    f'area of that page starts at {ax} and left is {left}')
+        if left is None and right is not None and x + mw != ax + aw - right:
+            return (f'fixed box f{node["id"]} ({where}) on page {m + 1}: margin box ends at x={x + mw}, but the page '
+                    f'area of that page ends at {ax + aw} and right is {right}')
+        if top is not None and y != ay + top:
+            return (f'fixed box f{node["id"]} ({where}) on page {m + 1}: margin box starts at y={y}, but the page '
+                    f'area of that page starts at {ay} and top is {top}')
+        if top is None and bottom is not None and y + mh != ay + ah - bottom:
+            return (f'fixed box f{node["id"]} ({where}) on page {m + 1}: margin box ends at y={y + mh}, but the page '
+                    f'area of that page ends at {ay + ah} and bottom is {bottom}')
+        for kid in node['kids']:
+            what = check(kid, m, f'nested in f{node["id"]}')
+            if what:
+                return what
+        return None
+    for n, page in enumerate(doc['pages']):
+        for tree in page:
+            for m in range(len(observed)):
+                if m != n and late_rule(tree['chain']):
+                    continue
+                what = check(tree, m, f'declared on page {n + 1}')
+                if what:
+                    return what
+    return None
+
+
+# ---------------------------------------------------------------------------------------------
 # wide documents checked by the verified trace checker (Model/FloatCheck.lean)
 
 WORDS = ['a', 'bb', 'ccc', 'dddd', 'eeeee', 'ffffff']
@@ -1032,7 +1212,6 @@ def float_doc_violation(doc, impl):
     flow_y = F(PAGE_MARGIN) + doc['spacer'] + CONTAINER_PAD      # bottom border edge of the in-flow content so far
     adj = []             # margins adjoining the next in-flow box
     loose = False        # a zero-height box collapsed through: the next positions are not claimed exactly
-    order_base = [0]     # rule 5 is held against floats[order_base:] (see the known finding below)
 
     def check_float(label, rect, side, clear, degenerate, lowest, rule8, earlier):
         """The float rules for one float against `earlier` (the floats it has to respect)."""
@@ -1045,7 +1224,7 @@ def float_doc_violation(doc, impl):
         for other, oside, j in earlier:
             if overlap(rect, other):
                 return f'float {label} {rect} overlaps float {j} {other}'
-        ordered = earlier[order_base[0]:] if earlier is floats else earlier
+        ordered = earlier
         if ordered and y < max(f[0][1] for f in ordered):
             return f'float {label} top {y} is above the top of an earlier float'
         if y < lowest:
@@ -1142,6 +1321,11 @@ def float_doc_violation(doc, impl):
                             if overlap((x, y, w, lh), other):
                                 return f'line of paragraph #{i} {(x, y, w, lh)} overlaps float {j} {other}'
                 same_line = []
+                if line_floats and doc['rtl']:
+                    # known finding inline-float-laid-out-twice: an rtl line holding floats may be started again,
+                    # and the floats laid out by the abandoned pass stay in the context: from here on only the
+                    # claims that extra (invisible) floats cannot break are held
+                    ghosts = True
                 if line_floats:
                     beside = [f for f in floats if f[0][1] < y + lh and y < f[0][1] + f[0][3]]
                     room = (min([cx + width] + [f[0][0] for f in beside if f[1] == 'right']) -
@@ -1155,22 +1339,12 @@ def float_doc_violation(doc, impl):
                             return (f'float {label} ({spec["w"]} wide) is kept on its line although only {room} is '
                                     f'left beside the line\'s content: it covers the text instead of going below the line')
                         room -= rect[2]
-                    if rect[1] == y:
-                        # kept on its line.  Known finding inline-float-snapped-to-line-top: such a float is moved
-                        # to the line's top whatever find_float_position decided, so its position is only held
-                        # against the floats of the same line: it may not be above an earlier one of them
-                        if same_line and rect[1] < max(f[0][1] for f in same_line):
-                            return (f'float {label} (top {rect[1]}) is above an earlier float of the same line '
-                                    f'(top {max(f[0][1] for f in same_line)})')
-                        if floats and rect[1] < max(f[0][1] for f in floats):
-                            # the finding at work: the float sits above an earlier float, and the code only
-                            # looks at the last float for rule 5; later floats are held against this one onwards
-                            order_base[0] = len(floats)
-                    else:
-                        # sent below the line: all the rules apply
-                        what = check_float(label, rect, spec['side'], spec['clear'], rect[3] <= 0, y, False, floats)
-                        if what:
-                            return what
+                    # laid out on its line or sent below it: all the float rules apply, from the line's top
+                    # (former finding inline-float-snapped-to-line-top: a float kept on its line used to be moved
+                    # to the line's top whatever find_float_position had decided)
+                    what = check_float(label, rect, spec['side'], spec['clear'], rect[3] <= 0, y, False, floats)
+                    if what:
+                        return what
                     floats.append((rect, spec['side'], label))
                     same_line.append((rect, spec['side'], label))
                 y_prev = y + lh
@@ -1211,23 +1385,6 @@ def float_doc_violation(doc, impl):
 
 def resolve(d, ref):
     return None if d == 'auto' else d[1] if d[0] == 'px' else ref * d[1] / 100
-
-
-def known_margin_defect(given, m_start_first, m_other, ltr=True, vertical=False):
-    """Signature of known finding abs-auto-margin-ignores-opposite-margin on one axis: the three of
-    (start offset, end offset, size) are specified and a margin is solved ignoring the other one."""
-    if not given:
-        return False
-    a, b = m_start_first, m_other       # margin-left/top, margin-right/bottom (resolved, None = auto)
-    if a is None and b is None:
-        return False
-    if a is None:
-        return b != 0
-    if b is None:
-        return a != 0
-    if vertical:
-        return a != 0
-    return (a != 0) if ltr else (b != 0)
 
 
 def abs_doc_violation(line, impl):
@@ -1282,12 +1439,15 @@ def abs_doc_violation(line, impl):
     # a negative solved size is clamped to 0 and the equation becomes over-constrained: no claim
     clamped_w = width is None and uw == 0
     clamped_h = height is None and uh == 0
+    # a replaced box whose offsets and margins are all specified ignores right (ltr) / left (rtl) / bottom, as
+    # CSS 2.1 §10.3.8 / §10.6.5 say; a block re-solves its end margin, so its equation always holds
+    repl = args[0] == 'absrepldoc'
     # horizontal
-    if not has_minmax and not clamped_w and not known_margin_defect(None not in (left, right, width), ml, mr, ltr):
+    if not has_minmax and not clamped_w:
         over = None not in (left, right, width, ml, mr)
-        if left is not None and not (over and not ltr) and x != cb_x + left:
+        if left is not None and not (repl and over and not ltr) and x != cb_x + left:
             return f'left: margin box starts at {x}, containing block starts at {cb_x}, left is {left}'
-        if right is not None and not (over and ltr) and x + mw != cb_x + cb_w - right:
+        if right is not None and not (repl and over and ltr) and x + mw != cb_x + cb_w - right:
             return (f'right: margin box ends at {x + mw}, containing block ends at {cb_x + cb_w}, right is {right}: '
                     f'left + margins + borders + paddings + width + right != width of the containing block')
         if left is None and right is None and ltr and x != sx0:
@@ -1295,15 +1455,13 @@ def abs_doc_violation(line, impl):
         if ml is not None and not over and None in (left, right, width) and uml != ml:
             return f'specified margin-left {ml} became {uml}'
     # vertical
-    if not has_minmax and not clamped_h and not known_margin_defect(
-            None not in (top, bottom, height), mt, mb, vertical=True):
-        over = None not in (top, bottom, height, mt, mb)
+    over_v = None not in (top, bottom, height, mt, mb)
+    if not has_minmax and not clamped_h:
         if top is not None and y != cb_y + top:
             return f'top: margin box starts at {y}, containing block starts at {cb_y}, top is {top}'
-        if bottom is not None and not over and top is None and y + mh != cb_y + cb_h - bottom:
-            return f'bottom: margin box ends at {y + mh}, containing block ends at {cb_y + cb_h}, bottom is {bottom}'
-        if bottom is not None and not over and top is not None and y + mh != cb_y + cb_h - bottom:
-            return f'top and bottom: margin box ends at {y + mh}, expected {cb_y + cb_h - bottom}'
+        if bottom is not None and not (repl and over_v) and y + mh != cb_y + cb_h - bottom:
+            return (f'bottom: margin box ends at {y + mh}, containing block ends at {cb_y + cb_h}, bottom is {bottom}: '
+                    f'top + margins + borders + paddings + height + bottom != height of the containing block')
         if top is None and bottom is None and y != sy0:
             return f'top and bottom auto: box at {y}, static position {sy0}'
     return None
@@ -1318,6 +1476,11 @@ def judge(meta, impl, line=None):
         return fixed_doc_violation(meta['doc'], impl)
     if meta.get('kind') == 'wide-doc':
         return wide_doc_violation(meta['doc'])
+    if meta.get('kind') == 'regression':
+        return regression_violation(meta['id'])
+    if meta.get('kind') == 'fixed-area-doc':
+        out = guarded(lambda: observe_fixed_area_doc(meta['doc']))
+        return fixed_area_violation(meta['doc'], *(out if not isinstance(out, str) else (out, [])))
     return None
 
 
@@ -1413,17 +1576,104 @@ def finding_float_minmax():
     return box is None or box.width != 100
 
 
+def finding_zero_height_float_overlap():
+    """A float with an empty border box but vertical margins (margin box 20x10) next to a 20x20 left float must
+    not be laid over it."""
+    by_id = boxes_by_id(docs.render(BASE + (
+        '<div style="width:100px"><div id="a" style="float:left;width:20px;height:20px"></div>'
+        '<div id="f" style="float:left;width:10px;height:0;margin:5px"></div></div>')))
+    a = [b for b in by_id.get('a', []) if type(b).__name__ == 'BlockBox']
+    f = [b for b in by_id.get('f', []) if type(b).__name__ == 'BlockBox']
+    if not a or not f:
+        return True
+    return overlap((f[0].position_x, f[0].position_y, f[0].margin_width(), f[0].margin_height()),
+                   (a[0].position_x, a[0].position_y, a[0].margin_width(), a[0].margin_height()))
+
+
+def regression_abs_replaced_floor_div():
+    """left:0; right:0; margin:auto on a 95-px image in a 100-px containing block: both margins 2.5px."""
+    by_id = boxes_by_id(docs.render(BASE + (
+        '<div style="position:relative;width:100px;height:100px">'
+        f'<img id="a" src="{SVG}" style="position:absolute;left:0;right:0;width:95px;height:10px;margin:auto"></div>')))
+    found = [b for b in by_id.get('a', []) if type(b).__name__ == 'BlockReplacedBox']
+    return not found or (found[0].margin_left, found[0].margin_right) != (2.5, 2.5)
+
+
+def regression_zero_height_blocks_descent():
+    """Floats 10x0, 80x50, 50x10 in a 100-px container: the third goes below the second (x = 20, y = 70)."""
+    box = _box('<div style="width:100px"><div style="float:left;width:10px;height:0"></div>'
+               '<div style="float:left;width:80px;height:50px"></div>'
+               '<div id="c" style="float:left;width:50px;height:10px"></div></div>', 'c')
+    return box is None or (box.position_x, box.position_y) != (20, 70)
+
+
+def finding_inline_float_twice():
+    """rtl, no earlier float: a 20x10 left float met in a line after a word must be against the left edge of
+    its 100-px container (x = 20), not beside a stale copy of itself (x = 40)."""
+    box = _box('<div style="width:100px;direction:rtl"><p style="margin:0">aa<span id="f" style="float:left;'
+               'width:20px;height:10px"></span></p></div>', 'f')
+    return box is None or box.position_x != 20
+
+
+def finding_fixed_fragmented():
+    """position:fixed;bottom:0;height:10px holding two 10px blocks: the second block must be drawn with its box on
+    the first page, as it is on the second page."""
+    by_id = boxes_by_id(docs.render(
+        '<style>@page{size:240px 320px;margin:16px}html,body{margin:0}</style>'
+        '<div style="position:fixed;left:0;bottom:0;width:50px;height:10px"><div style="height:10px"></div>'
+        '<div id="b" style="height:10px"></div></div><div style="height:20px"></div>'
+        '<div style="break-before:page;height:20px"></div>'))
+    found = [(b._page, b.position_y) for b in by_id.get('b', []) if type(b).__name__ == 'BlockBox']
+    return sorted(found) != [(0, 304), (1, 304)]
+
+
 FINDING_REPLAYS = {
+    'fixed-box-fragmented-on-own-page': finding_fixed_fragmented,
+    'inline-float-laid-out-twice': finding_inline_float_twice,
     'tall-line-aligned-in-strut-band': finding_tall_line,
+    'abs-cb-height-before-min-max': finding_cb_height_before_min_max,
+    'fixed-in-absolute-not-repeated': finding_fixed_in_absolute,
+    'zero-height-float-ignores-other-floats': finding_zero_height_float_overlap,
+}
+
+# Findings repaired in /repo (`fixed:` lines of known_findings.txt): their committed inputs stay as regression
+# cases of the first correspondence section (True = the defect is back).
+REGRESSION_REPLAYS = {
+    'abs-auto-margin-ignores-opposite-margin': finding_abs_auto_margin,
+    'zero-height-float-at-page-origin': finding_zero_height_float,
     'float-shrink-to-fit-ignores-margins-paddings': finding_float_stf,
     'float-width-ignores-min-max': finding_float_minmax,
     'rtl-inline-float-displaced': finding_rtl_inline_float,
     'inline-float-snapped-to-line-top': finding_inline_float_snapped,
-    'abs-auto-margin-ignores-opposite-margin': finding_abs_auto_margin,
-    'zero-height-float-at-page-origin': finding_zero_height_float,
-    'abs-cb-height-before-min-max': finding_cb_height_before_min_max,
-    'fixed-in-absolute-not-repeated': finding_fixed_in_absolute,
+    'abs-replaced-floor-div': regression_abs_replaced_floor_div,
+    'zero-height-float-blocks-descent': regression_zero_height_blocks_descent,
 }
+
+
+def sec_regressions(run):
+    """Corpus first: the committed inputs of repaired findings, on the implementation (rendered document) and on
+    the model (`regression <id>`: the same clause evaluated by the Lean driver)."""
+    sec = run.section(
+        'regressions', 'the committed input of every repaired finding (fixed: lines): the clause its replay function '
+        'checks on the rendered document, against the same clause evaluated on the model; both must say ok; '
+        'non-trivial = every case')
+    for key, fn in REGRESSION_REPLAYS.items():
+        out = guarded(fn)
+        text = out if isinstance(out, str) else ('still-failing' if out else 'ok')
+        sec.add(sx.line('regression', key), text, meta={'kind': 'regression', 'id': key, 'signature': None},
+                tags=['regression'])
+
+
+def regression_violation(key):
+    fn = REGRESSION_REPLAYS.get(key)
+    if fn is None:
+        return None
+    out = guarded(fn)
+    if isinstance(out, str):
+        return f'regression input of repaired finding {key}: rendering raised {out}'
+    if out:
+        return f'repaired finding {key} is back: {(fn.__doc__ or "").strip()}'
+    return None
 
 
 # ---------------------------------------------------------------------------------------------
@@ -1479,10 +1729,25 @@ def search(run, failures):
         meta = detail.get('meta') if isinstance(detail, dict) else None
         if isinstance(meta, dict) and meta.get('kind') in ('fixed-doc', 'fixed-late'):
             try_fixed(meta['doc'])
+    def try_fixed_area(doc):
+        run.search_stats['evaluations'] += 1
+        out = guarded(lambda: observe_fixed_area_doc(doc))
+        what = fixed_area_violation(doc, *(out if not isinstance(out, str) else (out, [])))
+        if what:
+            found.append({'what': what, 'input': {'html': fixed_area_doc_html(doc), 'kind': 'fixed-area-doc',
+                                                   'doc': doc}, 'signature': 'fixed-area-doc:' + what[:60]})
+    for failure in failures:
+        detail = failure.get('detail')
+        meta = detail.get('meta') if isinstance(detail, dict) else None
+        if isinstance(meta, dict) and meta.get('kind') == 'fixed-area-doc':
+            try_fixed_area(meta['doc'])
+        if len(found) >= 3:
+            return found
     while time.time() - start < budget and len(found) < 3:
         try_float(gen_float_doc(rng, adversarial=rng.random() < 0.2))
         try_abs(gen_abs_doc(rng))
         try_fixed(gen_fixed_doc(rng))
+        try_fixed_area(gen_fixed_area_doc(rng))
     return found
 
 
@@ -1495,6 +1760,9 @@ def replay_html(inp):
         return fixed_doc_violation(doc, out if isinstance(out, str) else out[0])
     if inp.get('kind') == 'wide-doc':
         return wide_doc_violation(doc)
+    if inp.get('kind') == 'fixed-area-doc':
+        out = guarded(lambda: observe_fixed_area_doc(doc))
+        return fixed_area_violation(doc, *(out if not isinstance(out, str) else (out, [])))
     if inp.get('kind') == 'abs-doc':
         for line, out, tags, key in abs_doc_cases(doc):
             what = abs_doc_violation(line, out) if line else f'positioned box {key}: {out}'
